@@ -11,21 +11,25 @@ MANIFEST = f"{VERIF}/miri/Cargo.toml"
 ENV = dict(os.environ, CARGO_TARGET_DIR=f"{VERIF}/miri/target", CARGO_NET_OFFLINE="true")
 
 def miri(flags, args, timeout=7200):
-    env = dict(ENV, MIRIFLAGS=flags + " -Zmiri-disable-isolation")
+    env = dict(ENV, MIRIFLAGS=flags)  # isolation stays on: no host randomness, a seed replays exactly
     p = subprocess.run(["cargo", "+nightly", "miri", "run", "--offline", "-q", "--manifest-path", MANIFEST, "--"] + args,
                        env=env, capture_output=True, text=True, timeout=timeout)
     return p.returncode, p.stdout, p.stderr
 
 def replay(path):
+    """Re-executes the recorded prefix of the scenario stream under the recorded Miri seed: with
+    isolation on, Miri's scheduler is a function of the seed and of the program's execution, so the
+    scenarios before the failing one have to run again for the schedule to be the same."""
     rp = json.load(open(path))
-    code, out, err = miri(f"-Zmiri-seed={rp['miri_seed']} -Zmiri-preemption-rate={rp['preemption_rate']}", ["scenario", json.dumps(rp["scenario"])])
-    print(out.strip())
+    lo, hi = rp["range"]
+    code, out, err = miri(f"-Zmiri-seed={rp['miri_seed']} -Zmiri-preemption-rate={rp['preemption_rate']}", [str(rp["verif_seed"]), str(lo), str(hi)])
+    print(out.strip()[:3000])
     if "C25B-VIOLATION" in out or code != 0:
         if "C25B-VIOLATION" not in out:
             print(err[-2000:])
         print(f"VIOLATION property=C25 replay={path}")
         return 1
-    print("replay: property holds on this scenario and Miri seed")
+    print("replay: property holds on these scenarios under this Miri seed")
     return 0
 
 def main():
@@ -56,15 +60,17 @@ def main():
                 m = re.search(r"C25B-VIOLATION index=(\d+) ([^\n]*)\n(?:.*\n)*? scenario (\{.*\})", o)
                 if m:
                     sc = json.loads(m.group(3))
-                    # confirm as a single-scenario replay
-                    c2, o2, _ = miri(f"-Zmiri-seed={s} -Zmiri-preemption-rate={rate}", ["scenario", json.dumps(sc)])
-                    violations.append({"index": int(m.group(1)), "detail": m.group(2), "scenario": sc, "miri_seed": s, "preemption_rate": rate,
-                                       "replays_alone": "C25B-VIOLATION" in o2})
+                    idx = int(m.group(1))
+                    # exact replay = the same prefix of the stream under the same seed; run it twice
+                    c2, o2, _ = miri(f"-Zmiri-seed={s} -Zmiri-preemption-rate={rate}", [str(SEED), str(lo), str(idx + 1)])
+                    if "C25B-VIOLATION" not in o2:
+                        print("HARNESS ERROR: engine B violation does not replay from its recorded prefix and seed"); sys.exit(2)
+                    violations.append({"index": idx, "detail": m.group(2), "scenario": sc, "miri_seed": s, "preemption_rate": rate, "range": [lo, idx + 1]})
                     found = True
                     break
                 if c != 0 and "C25B" not in o:
                     violations.append({"index": -1, "detail": "abnormal end under Miri (panic, deadlock or undefined behaviour): " + e.strip().splitlines()[-1][:300] if e.strip() else "abnormal end",
-                                       "scenario": None, "miri_seed": s, "preemption_rate": rate, "range": [lo, hi], "replays_alone": False})
+                                       "scenario": None, "miri_seed": s, "preemption_rate": rate, "range": [lo, hi]})
                     found = True
                     break
             if not found:
@@ -75,7 +81,7 @@ def main():
     for v in violations:
         path = f"{VERIF}/replays/C25/b_{v['index']}_{v['miri_seed']}.json"
         json.dump({"property": "C25", "engine": "B (Miri: real crossbeam-channel + real std threads)", "scenario": v["scenario"], "miri_seed": v["miri_seed"],
-                   "preemption_rate": v["preemption_rate"], "violation": {"class": v["detail"].split(":")[0], "detail": v["detail"]}, "found_by": {"VERIF_SEED": SEED, "run_index": v["index"]}}, open(path, "w"), indent=1)
+                   "preemption_rate": v["preemption_rate"], "range": v["range"], "verif_seed": SEED, "violation": {"class": v["detail"].split(":")[0], "detail": v["detail"]}, "found_by": {"VERIF_SEED": SEED, "run_index": v["index"]}}, open(path, "w"), indent=1)
         lines.append(f"VIOLATION property=C25 replay={path}")
     # merge into the evidence written by engine A
     evp = f"{VERIF}/evidence/C25.json"
